@@ -175,6 +175,11 @@ class FeArray(np.ndarray):
         # __add__ and friends, so that the type hierarchy is decided in one place
         elementwise = method == "__call__" and ufunc.signature is None
 
+        # numpy's matmul reads the last two axes as the matrix, which for a vector field are
+        # (nPg, i); the tensor ranks decide instead, as they do for the @ operator
+        if ufunc is np.matmul and method == "__call__" and not kwargs:
+            return FeArray._matmul(*inputs)
+
         # two fields of the same shape need no alignment and no rewrapping decision; this is
         # the overwhelming majority of calls, and it is what keeps small arrays cheap
         if elementwise and not kwargs and len(inputs) == 2:
@@ -247,28 +252,37 @@ class FeArray(np.ndarray):
             return FeArray.asfearray(self)
 
     def __matmul__(self, other) -> FeArrayALike:
-        ndim1 = self._ndim
+        return FeArray._matmul(self, other)
 
-        if isinstance(other, FeArray):
-            ndim2 = other._ndim
-        elif isinstance(other, np.ndarray):
-            ndim2 = other.ndim
-        elif getattr(other, "_isFeField", False):
-            other: FeArray = other()  # type: ignore [no-redef]
-            ndim2 = other._ndim
-        else:
-            raise TypeError("`other` must be either a FeArray, NDArray or a Field.")
+    def __rmatmul__(self, other) -> FeArrayALike:
+        # a plain array on the left is a constant tensor
+        return FeArray._matmul(other, self)
 
-        if ndim1 == ndim2 == 1:
-            return self.dot(other)
+    @staticmethod
+    def _matmul(left, right) -> FeArrayALike:
+        """left @ right at every Gauss point; the ranks are the operands' own, never read from a shape."""
+        left, right = _Evaluate(left), _Evaluate(right)
+        ranks = []
+        for operand in (left, right):
+            if isinstance(operand, FeArray):
+                ranks.append(operand._ndim)
+            elif isinstance(operand, np.ndarray):
+                ranks.append(operand.ndim)
+            else:
+                raise TypeError("operands must be either a FeArray, NDArray or a Field.")
+        ndim1, ndim2 = ranks
+
+        if ndim1 == 0 or ndim2 == 0:
+            raise ValueError("Must be at least a finite element vector (Ne, nPg, i).")
         elif ndim1 == ndim2 == 2:
-            return super().__matmul__(other)
+            return FeArray.asfearray(np.matmul(_Base(left), _Base(right)))
         elif ndim1 == 1 and ndim2 == 2:
-            return FeArray.asfearray(np.einsum("...i,...ij->...j", self, other))
+            subscript = "...i,...ij->...j"
         elif ndim1 == 2 and ndim2 == 1:
-            return FeArray.asfearray(np.einsum("...ij,...j->...i", self, other))
+            subscript = "...ij,...j->...i"
         else:
-            return self.dot(other)
+            subscript = FeArray._dot_subscript(ndim1, ndim2)
+        return FeArray.asfearray(np.einsum(subscript, left, right))
 
     @staticmethod
     @lru_cache(maxsize=16)
